@@ -328,6 +328,65 @@ fn run_history(sim: &mut Sim, cfg: &Config, steps: &[(Op, usize)], acc: &mut Acc
     sim.app.world.despawn(e);
 }
 
+const STREAM_SHARED: u64 = 3;
+
+/// One key type shared by the selectors of two animated component types (the pattern of the repository's own bevy
+/// example): an entity with `AnimationSelector<Key, Cv>` and one with `AnimationSelector<Key, Dv>` (or both on one
+/// entity), each with the chain Idle -> Go -> Done over three short finite timelines. Bounded progress, judged per
+/// selector: the keys are visited in chain order and within `3 x (frames of one timeline + 2)` frames the key is Done
+/// and the governed animator has Ended.
+fn shared_key_case(index: u64, acc: &mut Acc) {
+    let (order, dv_key, multi, same_entity) = ((index % 2) as u8, 1 + ((index / 2) % 2) as u8, (index / 4) % 4 == 3, (index / 16) % 2 == 1);
+    let mut sim = Sim::with_shared_key(order, multi, dv_key);
+    let descs = [
+        TlDesc { delay: 0.0, cycle: 0.5, repeat: Repeat::None, reverse: false, variant: 0 },
+        TlDesc { delay: 0.125, cycle: 0.25, repeat: Repeat::Times(1), reverse: false, variant: 1 },
+        TlDesc { delay: 0.0, cycle: 0.5, repeat: Repeat::None, reverse: true, variant: 2 },
+    ];
+    let mut tc: bevy::utils::HashMap<Key, Box<dyn SafeTimeline<Target = Cv>>> = bevy::utils::HashMap::new();
+    let mut td: bevy::utils::HashMap<Key, Box<dyn SafeTimeline<Target = Dv>>> = bevy::utils::HashMap::new();
+    for (k, d) in [Key::Idle, Key::Go, Key::Done].iter().zip(descs.iter()) {
+        tc.insert(*k, Box::new(d.build_cv()));
+        td.insert(*k, Box::new(d.build_dv()));
+    }
+    let chain = || AnimationChainBuilder::<Key>::new().add(Key::Idle, Key::Go).add(Key::Go, Key::Done).build();
+    let (ec, ed) = if same_entity {
+        let e = sim.app.world.spawn((Cv::default(), Animator::<Cv>::new(), AnimationSelector::<Key, Cv>::new(tc, Key::Idle), Dv::default(), Animator::<Dv>::new(), AnimationSelector::<Key, Dv>::new(td, Key::Idle), chain())).id();
+        (e, e)
+    } else {
+        let ec = sim.app.world.spawn((Cv::default(), Animator::<Cv>::new(), AnimationSelector::<Key, Cv>::new(tc, Key::Idle), chain())).id();
+        let ed = sim.app.world.spawn((Dv::default(), Animator::<Dv>::new(), AnimationSelector::<Key, Dv>::new(td, Key::Idle), chain())).id();
+        (ec, ed)
+    };
+    let dt = Duration::from_secs_f64(if index % 3 == 0 { 0.125 } else { 0.0625 });
+    let frames = 3 * ((0.625 / dt.as_secs_f64()) as usize + 3) + 4;
+    let mut seq_c: Vec<Key> = Vec::new();
+    let mut seq_d: Vec<Key> = Vec::new();
+    for _ in 0..frames {
+        sim.frame(dt);
+        acc.evals(2);
+        let kc = sim.app.world.get::<AnimationSelector<Key, Cv>>(ec).unwrap().timeline_key;
+        let kd = sim.app.world.get::<AnimationSelector<Key, Dv>>(ed).unwrap().timeline_key;
+        if seq_c.last() != Some(&kc) { seq_c.push(kc); }
+        if seq_d.last() != Some(&kd) { seq_d.push(kd); }
+    }
+    let want = vec![Key::Idle, Key::Go, Key::Done];
+    let (sc, sd) = (sim.anim::<Cv>(ec).0, sim.anim::<Dv>(ed).0);
+    let case = || case_json(STREAM_SHARED, index, vec![("registration_order", J::U(order as u64)), ("dv_key_registered", J::s(if dv_key == 1 { "first" } else { "second" })), ("multi_threaded", J::B(multi)), ("same_entity", J::B(same_entity)), ("frame_seconds", J::F(dt.as_secs_f64())), ("frames", J::U(frames as u64))]);
+    for (name, seq, st) in [("Cv", &seq_c, sc), ("Dv", &seq_d, sd)] {
+        if *seq != want || st != AnimationState::Ended {
+            acc.violation(
+                "c19:shared-key-type",
+                format!("key type shared by two selectors: after {frames} frames of {:?} the selector governing {name} went through keys {:?} and its animator is {} — the chain Idle -> Go -> Done over three finite timelines should have been walked to the end (keys {:?}, Ended)", dt, seq, state_name(st), want),
+                case(),
+            );
+            return;
+        }
+    }
+    acc.sig(format!("shared-key|order{order}|dv{dv_key}|mt={multi}|same-entity={same_entity}"));
+    if same_entity { sim.app.world.despawn(ec); } else { sim.app.world.despawn(ec); sim.app.world.despawn(ed); }
+}
+
 pub fn run(run: &mut Run) {
     let thorough = run.thorough();
     let depth = if thorough { 5 } else { 4 };
@@ -342,7 +401,7 @@ pub fn run(run: &mut Run) {
         the current key => nothing; the key only changes by itself when the governed Animator ended in the previous frame with key \
         k and chain[k] exists) under some (system order, race outcome); non-trivial = a frame with a selection, a chain reaction or a \
         pending Ended event; distinct = (configuration, selection/steady, key before/after, animator transition, explicit op?, chain \
-        pending?, other animator ended?)"
+        pending?, other animator ended?); plus 96 runs in which one key type is shared by the selectors of two component types (both registration orders, one or two entities), judged by bounded progress: each selector walks its chain Idle -> Go -> Done to the end"
     );
     run.assumptions = vec![
         "chain_animations and select_animation are mutually unordered in mina's registration: either order is a legitimate schedule".into(),
@@ -366,6 +425,9 @@ pub fn run(run: &mut Run) {
     run.parallel(|w, nw, acc| {
         let mut sims: Vec<Sim> = (0..4).map(|o| Sim::new(o)).collect();
         let mut mt_sim: Option<Sim> = None;
+        for i in my_cases(rc, STREAM_SHARED, 96, w, nw) {
+            guarded(acc, "c19", STREAM_SHARED, i, |acc| shared_key_case(i, acc));
+        }
         for i in my_cases(rc, STREAM_EXH, n_exh, w, nw) {
             let (cfg, mut x, dep) = if i < n_deep {
                 (&cfgs[deep[(i / per) as usize]], i % per, depth)
